@@ -207,6 +207,9 @@ def _matrix_entries(fn):
     if len(rets) != 1 or not isinstance(rets[0].value, ast.Call):
         return None
     call = rets[0].value
+    from sa.canon import canon as _canon
+    can = _canon(fn)
+    call = can.expr(call)           # entries read through locals (c = math.cos(theta)) are expanded
     res = {}
     names = ['a%d%di' % (i, j) for i in range(1, 5) for j in range(1, 5)]
     for idx, arg in enumerate(call.args):
